@@ -126,6 +126,38 @@ func c04FillBatch(b *bleve.Batch, w, n, K int) {
 	b.SetInternal([]byte(fmt.Sprintf("w%d", w)), []byte(fmt.Sprint(n)))
 }
 
+// the document every writer rewrites, read through the same reader
+func c04Shared(rd index.IndexReader) (present bool, w, n int) {
+	d, err := rd.Document("shared")
+	if err != nil || d == nil {
+		return false, 0, 0
+	}
+	d.VisitFields(func(f index.Field) {
+		if nf, ok := f.(index.NumericField); ok {
+			v, _ := nf.Number()
+			switch f.Name() {
+			case "seq":
+				n = int(v)
+			case "wr":
+				w = int(v)
+			}
+		}
+	})
+	return true, w, n
+}
+
+func c04SharedLine(ints []int, present bool, w, n int) string {
+	ps := make([]string, len(ints))
+	for i, x := range ints {
+		ps[i] = fmt.Sprint(x)
+	}
+	p := 0
+	if present {
+		p = 1
+	}
+	return fmt.Sprintf("shared %s %d %d %d", strings.Join(ps, ","), p, w, n)
+}
+
 func c04Line(client int, acked []int, docs [][]int, ints []int, count uint64) string {
 	j := func(xs []int) string {
 		ps := make([]string, len(xs))
@@ -186,6 +218,7 @@ func runC04(t *Trace, r *Rng, tier string, _ []string) {
 		var wg sync.WaitGroup
 		var mu sync.Mutex
 		var obs, sobs []c04Obs
+		var shr []string
 		var handleLines []string
 		// writers
 		for w := 0; w < W; w++ {
@@ -202,6 +235,8 @@ func runC04(t *Trace, r *Rng, tier string, _ []string) {
 					n++
 					b := idx.NewBatch()
 					c04FillBatch(b, w, n, K)
+					// one document that every writer rewrites: concurrent batches meet on the same id
+					_ = b.Index("shared", map[string]interface{}{"seq": float64(n), "wr": float64(w)})
 					if err := idx.Batch(b); err != nil {
 						return
 					}
@@ -234,12 +269,17 @@ func runC04(t *Trace, r *Rng, tier string, _ []string) {
 						return
 					}
 					docs, ints, count, err := c04Observe(rd, W, K)
+					present, sw, sn := c04Shared(rd)
 					rd.Close()
 					if err != nil {
 						continue
 					}
+					if present { // the history monitor counts the writers' own documents
+						count--
+					}
 					mu.Lock()
 					obs = append(obs, c04Obs{cl, c04Line(cl, ack, docs, ints, count)})
+					shr = append(shr, c04SharedLine(ints, present, sw, sn))
 					mu.Unlock()
 					time.Sleep(time.Duration(200+cl*150) * time.Microsecond)
 				}
@@ -270,6 +310,7 @@ func runC04(t *Trace, r *Rng, tier string, _ []string) {
 				for w := range docs {
 					docs[w] = make([]int, K+8)
 				}
+				sharedHits := 0
 				for _, h := range res.Hits {
 					var w, k int
 					if n, _ := fmt.Sscanf(h.ID, "w%d-x%d", &w, &k); n == 2 {
@@ -279,6 +320,10 @@ func runC04(t *Trace, r *Rng, tier string, _ []string) {
 					} else {
 						fmt.Sscanf(h.ID, "w%d-%d", &w, &k)
 					}
+					if h.ID == "shared" {
+						sharedHits++
+						continue
+					}
 					if v, ok := h.Fields["seq"].(float64); ok && w < W && k < K+8 {
 						docs[w][k] = int(v)
 					}
@@ -287,7 +332,11 @@ func runC04(t *Trace, r *Rng, tier string, _ []string) {
 					ints[w] = docs[w][0]
 				}
 				mu.Lock()
-				sobs = append(sobs, c04Obs{9, c04Line(9, ack, docs, ints, res.Total)})
+				total := res.Total
+				if sharedHits > 0 { // exactly one copy is taken off: a second live copy shows in the count
+					total--
+				}
+				sobs = append(sobs, c04Obs{9, c04Line(9, ack, docs, ints, total)})
 				mu.Unlock()
 				time.Sleep(300 * time.Microsecond)
 			}
@@ -351,6 +400,12 @@ func runC04(t *Trace, r *Rng, tier string, _ []string) {
 		}
 		for _, o := range sobs {
 			t.Emit(c.name+"/search-obs", true, o.line, "ok")
+		}
+		if len(shr) > limit {
+			shr = shr[:limit]
+		}
+		for _, l := range shr {
+			t.Emit(c.name+"/shared-doc", true, l, "ok")
 		}
 		if len(handleLines) > 400 {
 			handleLines = handleLines[:400]
